@@ -185,4 +185,30 @@ theorem timers_fire_by_identity :
     seq "sio.TimerEntry.run" = ["Lock", "Unlock", "delete", "Unlock", "Emitter", "Lock", "changed", "Unlock"] ∧
     seq "sio.Timers.add" = ["cancel", "changed", "go run"] := by decide
 
+/-! ## hidden state: package-level variables and unexported struct fields (C03, C06, C10, C12) -/
+
+/-- C03: the matcher's package holds no state besides the default matcher's three switches, and no
+    type of the package has an unexported field: nothing can be remembered between two calls. -/
+theorem match_no_hidden_state :
+    seq "pkgvars:match" = ["DefaultMatcher"] ∧ seq "hiddenfields:match" = [] := by decide
+
+/-- C06/C12: the package-level variables of `core` are the constants, defaults and generated enum
+    tables the models know, and the only unexported fields are the native action's canned results,
+    the spec's `compiled` flag, the embedded event records and the updatable spec's pointer. -/
+theorem core_no_hidden_state :
+    seq "pkgvars:core" =
+      ["DefaultBranchType", "DefaultControl", "DefaultErrorNodeName", "DefaultInterpreters", "DefaultPatternParser",
+       "EmittedMessagesInitialCap", "Exp_BranchTargetVariables", "Exp_PermanentBindings", "InterpreterNotFound",
+       "TooManyBindingss", "TracesInitialCap", "_StopReasonNameToValue", "_StopReasonValueToName",
+       "_StopReason_index", "alphabet", "defaultErrorNode"] ∧
+    seq "hiddenfields:core" =
+      ["Execution.:*Events", "FuncAction.binds:[]Bindings", "FuncAction.emits:[]interface{}", "Spec.compiled:bool",
+       "Stride.:*Events", "UpdatableSpec.spec:unsafe.Pointer"] := by decide
+
+/-- C10: the ECMAScript interpreter's package holds three constants and its types no unexported
+    field (no runtime, pool or cache survives an execution). -/
+theorem es_no_hidden_state :
+    seq "pkgvars:interpreters/ecmascript" = ["IgnoreExit", "Interrupted", "InterruptedMessage"] ∧
+    seq "hiddenfields:interpreters/ecmascript" = [] := by decide
+
 end FactsOK
